@@ -327,11 +327,11 @@ func (x *c20Extractor) retireToken(fun string, arg func(int) string) string {
 }
 
 func (x *c20Extractor) fallbackToken(fun string) string {
-	if strings.ContainsAny(fun, " {(") {
-		return "" // not a plain (selector) name, e.g. an immediately invoked function literal
-	}
 	if strings.HasSuffix(fun, ".Fatalln") || strings.HasSuffix(fun, ".Fatalf") || strings.HasSuffix(fun, ".Fatal") || fun == "os.Exit" {
 		return "fatal"
+	}
+	if strings.ContainsAny(fun, " {") {
+		return "" // not a plain (selector) name, e.g. an immediately invoked function literal
 	}
 	low := strings.ToLower(fun)
 	if strings.HasPrefix(fun, "reloadManager.") || strings.Contains(low, "reloadpending") ||
